@@ -392,4 +392,25 @@ MUTATIONS += [
                 return False
         return True
 """, expect={}),
+    # ---- wave-4 seeds as kept
+    dict(id="w4-c05c", patch="seeded/C05c/patch.diff", expect={'C05': ['R5d:'], 'C14': ['R5d:']}, allow_others=True),
+    dict(id="w4-c05d", patch="seeded/C05d/patch.diff", expect={'C05': ['R4b:'], 'C01': ['R4b:'], 'C11': ['R4']}, allow_others=True),
+    dict(id="w4-c07c", patch="seeded/C07c/patch.diff", expect={'C07': ['R2d:']}, allow_others=True),
+    dict(id="w4-c07d", patch="seeded/C07d/patch.diff", expect={'C07': ['R2h:']}, allow_others=True),
+    dict(id="w4-c08c", patch="seeded/C08c/patch.diff", expect={'C08': ['R7s:']}, allow_others=True),
+    dict(id="w4-c08d", patch="seeded/C08d/patch.diff", expect={'C08': ['R7n:'], 'C16': ['R7n:']}, allow_others=True),
+    dict(id="w4-c11c", patch="seeded/C11c/patch.diff", expect={'C11': ['R8:']}, allow_others=True),
+    dict(id="w4-c11d", patch="seeded/C11d/patch.diff", expect={'C11': ['R8s:']}, allow_others=True),
+    dict(id="w4-c12c", patch="seeded/C12c/patch.diff", expect={'C12': ['R3d:'], 'C02': ['R3d:']}, allow_others=True),
+    dict(id="w4-c12d", patch="seeded/C12d/patch.diff", expect={'C12': ['R4l:'], 'C14': ['R4l:']}, allow_others=True),
+    dict(id="w4-c14c", patch="seeded/C14c/patch.diff", expect={'C14': ['R12c:'], 'C02': ['R12c:']}, allow_others=True),
+    dict(id="w4-c14d", patch="seeded/C14d/patch.diff", expect={'C14': ['R3i:'], 'C02': ['R3i:']}, allow_others=True),
+    dict(id="w4-c15c", patch="seeded/C15c/patch.diff", expect={'C15': ['R4s:']}, allow_others=True),
+    dict(id="w4-c15d", patch="seeded/C15d/patch.diff", expect={'C15': ['R10i:'], 'C01': ['R10i:']}, allow_others=True),
+    dict(id="w4-c16c", patch="seeded/C16c/patch.diff", expect={'C16': ['R14d:']}, allow_others=True),
+    dict(id="w4-c16d", patch="seeded/C16d/patch.diff", expect={'C16': ['R14a:'], 'C08': ['R14a:']}, allow_others=True),
+    dict(id="w4-c20c", patch="seeded/C20c/patch.diff", expect={'C20': ['R14b:']}, allow_others=True),
+    dict(id="w4-c20d", patch="seeded/C20d/patch.diff", expect={'C20': ['R14c:']}, allow_others=True),
+    dict(id="r3j-config-list", file=TNODES, old='        config["indices"] = tuple(self.indices)', new='        config["indices"] = self.indices', expect={"C02": ["R3j:"], "C14": ["R3j:"]}),
+    dict(id="r14e-numpy-scalar-into-scope", file="cirkit/templates/region_graph/algorithms/utils.py", old="            cur_v, prev_v = prev_v, int(tree[cur_v])", new="            cur_v, prev_v = prev_v, tree[cur_v]", expect={"C16": ["R14e:"]}),
 ]
